@@ -916,7 +916,7 @@ fn fetch_pos(m: ZXMachine, tau: isize) -> (bool, usize, usize) {
 // @fn ZXController::read_io; ZXController::floating_bus_value; KempstonJoy::read; TapeImpl::current_bit; bitmap_line_addr; ZXMemory::read
 // @sym machine, latch, frame time, 16-bit port, device configuration as in c07_write_reaches_one_device, keyboard/extended/sinclair matrices (bits 5-7 set), one witness byte in display memory (bitmap or attribute, position from a class of 5)
 // @assert for every port selecting at most one device: extender ports return the extender's byte (read once); even ports return the AND of the half-rows selected by zero bits of A8-A15 over the three key sources, bit 6 = EAR, bits 5,7 = 1; Kempston port returns the joystick byte; mouse ports return buttons/X/Y; a port no device claims returns 0xFF when the whole cycle lies outside the picture fetch windows (+-4 T), otherwise 0xFF or a byte of display/attribute memory of the cells fetched during the cycle (+-4 T); reads change no device state
-// @assume at most one device selected; AY ports are excluded in this build (no AY compiled in; see c07_ay_ports); (A8,A10)=(0,1) mouse-style addresses are excluded (statement names only the FADF/FBDF/FFDF forms); tape is the empty deck (EAR low)
+// @assume at most one device selected; AY ports are excluded in this build (no AY compiled in; see c07_ay_ports); (A8,A10)=(0,1) mouse-style addresses are excluded (statement names only the FADF/FBDF/FFDF forms); tape deck empty (EAR low) or loaded with an arbitrary EAR level
 // @bound one port read per query
 // @stub ZXScreen::process_clocks -> no-op
 // @replay solver-only
@@ -958,6 +958,13 @@ fn c07_read_comes_from_one_device() {
             (true, 23, 31)
         }
     };
+    // tape deck: empty, or a loaded (stopped) tape with an arbitrary EAR level
+    let ear: bool = kani::any();
+    if kani::any() {
+        c.tape = crate::zx::tape::verif_hooks_tap::stopped_tape_with_level(ear).into();
+    } else {
+        kani::assume(!ear);
+    }
     let port: u16 = kani::any();
     let sel = spec_select(m, port, cfg.kemp_on, cfg.mouse_on, cfg.ext);
     kani::assume(sel.count() <= 1 && !sel.ay_sel && !sel.ay_data && !sel.mouse_unspecified);
@@ -986,8 +993,8 @@ fn c07_read_comes_from_one_device() {
             }
             n += 1;
         }
-        // empty deck: EAR low -> bit 6 = 0; bits 5 and 7 read 1
-        kani::assert(got == (want & 0x1F) | 0xA0, "c07.read.ula_keyboard_and_ear");
+        // bit 6 = tape EAR level (low for the empty deck); bits 5 and 7 read 1
+        kani::assert(got == (want & 0x1F) | 0xA0 | if ear { 0x40 } else { 0 }, "c07.read.ula_keyboard_and_ear");
     } else if sel.kemp {
         kani::assert(got == cfg.kemp_state, "c07.read.kempston");
     } else if sel.mouse_b {
@@ -1019,6 +1026,7 @@ fn c07_read_comes_from_one_device() {
         kani::cover!(same_gap && t > 20000, "idle bus inside the picture area (right border / retrace)");
     }
     kani::cover!(sel.ula && got & 0x1F != 0x1F, "key held on a selected row");
+    kani::cover!(sel.ula && !sel.ext && got & 0x40 != 0, "EAR high on bit 6");
     kani::cover!(sel.kemp, "kempston read");
     kani::cover!(sel.mouse_y, "mouse Y read");
     kani::cover!(sel.ext && port & 1 == 0, "extender answers an even port it claims");
